@@ -3,8 +3,9 @@
 
    Models: Proto/PairModel.v (one parametric step function, k = K0 for pair0/pair.c,
    K1 raw for pair1/pair.c cooked/raw; fx = the pipe_stop repair of the send descriptor is
-   present in the source -- read from the current tree, Gen/Consts.v).  All theorems are
-   for every k and fx unless they say otherwise.  One step = one critical section of s->mtx,
+   present in the source; fr = the set_send_buf_len repair (blocked senders are admitted, in
+   order, when the buffer grows; fix 7c956d7) is present -- both read from the current tree,
+   Gen/Consts.v).  All theorems are for every k, fx and fr unless they say otherwise.  One step = one critical section of s->mtx,
    so a theorem over all op lists covers all interleavings of entry points and callbacks.
 
    Environment contract op_ok (PairProofs): pipe ids are fresh; a send completion belongs to
@@ -21,16 +22,16 @@ Import ListNotations.
    peer protocol, NNG_EPROTO for a wrong one -- and changes nothing at all; a wrong peer
    protocol is refused in every state; after the attached pipe is reaped (pipe_close ;
    pipe_stop) the next pipe of the right protocol is accepted and its receive is armed *)
-Theorem pair_one_peer : forall k fx,
+Theorem pair_one_peer : forall k fx fr,
   (forall s q p peer, pr_p s = Some q ->
-     pair_step k fx s (PPipeStart p peer) = (s, [Reject (if N.eqb peer (pair_peer k) then E_BUSY else E_PROTO)])) /\
-  (forall s p peer, peer <> pair_peer k -> pair_step k fx s (PPipeStart p peer) = (s, [Reject E_PROTO])) /\
-  (forall s q s1 o1, pr_p s = Some q -> pair_step k fx s (PPipeClose q) = (s1, o1) ->
+     pair_step k fx fr s (PPipeStart p peer) = (s, [Reject (if N.eqb peer (pair_peer k) then E_BUSY else E_PROTO)])) /\
+  (forall s p peer, peer <> pair_peer k -> pair_step k fx fr s (PPipeStart p peer) = (s, [Reject E_PROTO])) /\
+  (forall s q s1 o1, pr_p s = Some q -> pair_step k fx fr s (PPipeClose q) = (s1, o1) ->
      pr_p s1 = None /\
-     forall p s2 o2, pair_step k fx s1 (PPipeStart p (pair_peer k)) = (s2, o2) ->
+     forall p s2 o2, pair_step k fx fr s1 (PPipeStart p (pair_peer k)) = (s2, o2) ->
        pr_p s2 = Some p /\ In (TranRecv p) o2 /\ forall rv, ~ In (Reject rv) o2).
 Proof.
-  intros k fx. split; [|split].
+  intros k fx fr. split; [|split].
   - apply pair_second_peer_rejected.
   - apply pair_wrong_peer_rejected.
   - apply pair_peer_released_then_accepted.
@@ -48,8 +49,8 @@ Print Assumptions pair_one_peer.
    from the peer is delivered, still buffered / parked, or an explicit loss (shrink, close,
    the message parked in a connection that goes down); and every Free is one of: a message
    the hop rules reject, one of those explicit losses, the message of a failed transport send. *)
-Theorem pair_conservation_step : forall k fx s o s' outs,
-  PInv s -> op_ok s o -> pair_step k fx s o = (s', outs) ->
+Theorem pair_conservation_step : forall k fx fr s o s' outs,
+  PInv s -> op_ok s o -> pair_step k fx fr s o = (s', outs) ->
   PInv s' /\
   map (wire_form k) (pr_wmq s ++ paccepted k s o outs) = txs outs ++ map (wire_form k) (pr_wmq s' ++ wloss s o) /\
   (forall x, cnt x (sendingl s ++ txs outs) = cnt x (sendingl s' ++ wire_taken s o ++ snd_freed s o)) /\
@@ -63,15 +64,15 @@ Proof. exact pair_step_law. Qed.
 Print Assumptions pair_conservation_step.
 
 (* the invariant on every reachable state: wr_ready => send queue empty and no blocked sender
-   (and the rest of PInv).  The companion "a blocked sender => the send buffer is full" is
-   NOT an invariant: a growing resize does not drain waiters (Appendix D) -- see the example
-   pair_blocked_sender_after_grow below. *)
-Theorem pair_wr_ready_invariant : forall k fx ops, ops_ok k fx pair_init ops ->
-  let s := fst (pair_run k fx pair_init ops) in
+   (and the rest of PInv).  The companion "a blocked sender => the send buffer is full" is an
+   invariant exactly since fix 7c956d7 (fr = true): pair_blocked_sender_implies_full below;
+   for the pinned resize it is refuted (pair_blocked_sender_not_full_refuted). *)
+Theorem pair_wr_ready_invariant : forall k fx fr ops, ops_ok k fx fr pair_init ops ->
+  let s := fst (pair_run k fx fr pair_init ops) in
   PInv s /\ (pr_wr s = true -> pr_p s <> None /\ pr_wmq s = [] /\ pr_waq s = []).
 Proof.
-  intros k fx ops Hok. pose proof (pair_run_law k fx ops pair_init (proj1 pair_init_inv) Hok) as L.
-  destruct (pair_run k fx pair_init ops) as [s tr]. cbn [fst]. destruct L as (HI & _). split; [exact HI|].
+  intros k fx fr ops Hok. pose proof (pair_run_law k fx fr ops pair_init (proj1 pair_init_inv) Hok) as L.
+  destruct (pair_run k fx fr pair_init ops) as [s tr]. cbn [fst]. destruct L as (HI & _). split; [exact HI|].
   intros W. destruct HI as (I1 & _). destruct (I1 W) as (A & B & C). repeat split; auto.
   destruct (pr_p s); [discriminate|contradiction].
 Qed.
@@ -86,8 +87,8 @@ Print Assumptions pair_wr_ready_invariant.
    what the peer's admitted messages, equal when nothing was explicitly dropped (tr_rloss =
    receive-buffer shrink, socket close, the message parked in a connection that went down).
    Each message at most once: the equalities / multiset equations leave no room for a copy. *)
-Theorem pair_fifo_lossless_while_up : forall k fx ops s, PInv s -> ops_ok k fx s ops ->
-  let (s', tr) := pair_run k fx s ops in
+Theorem pair_fifo_lossless_while_up : forall k fx fr ops s, PInv s -> ops_ok k fx fr s ops ->
+  let (s', tr) := pair_run k fx fr s ops in
   PInv s' /\
   sublist (tr_tx tr ++ map (wire_form k) (pr_wmq s')) (map (wire_form k) (pr_wmq s ++ tr_acc k tr)) /\
   (tr_wloss tr = [] -> tr_tx tr ++ map (wire_form k) (pr_wmq s') = map (wire_form k) (pr_wmq s ++ tr_acc k tr)) /\
@@ -102,9 +103,9 @@ Print Assumptions pair_fifo_lossless_while_up.
 (* when nothing can be taken (peer's send not idle and buffer full -- in particular the
    unbuffered socket whose peer is not reading) a blocking send is queued: no completion, no
    transmission, no Free, nothing else changes ... *)
-Theorem pair_send_blocks_not_drops : forall k fx s c a m m',
+Theorem pair_send_blocks_not_drops : forall k fx fr s c a m m',
   norm_send k m = Some m' -> can_send s = false ->
-  pair_step k fx s (PSend c a false m) =
+  pair_step k fx fr s (PSend c a false m) =
     (mkPair (pr_p s) (pr_ttl s) (pr_wmq s) (pr_wcap s) (pr_waq s ++ [(a, m')]) (pr_rmq s) (pr_rcap s) (pr_raq s)
             (pr_rd s) (pr_wr s) (pr_sending s) (pr_readable s) (pr_writable s), []).
 Proof. exact pair_send_blocks_not_drops. Qed.
@@ -114,8 +115,8 @@ Print Assumptions pair_send_blocks_not_drops.
    exactly when the blocking form would have been queued, NNG_EPROTO exactly for a malformed
    raw header; in both failures the state is unchanged and the message stays with the caller
    (completion carries no message: Common.Complete a rv None = still attached to the aio) *)
-Theorem pair_nb_send_immediate : forall k fx s c a m s' outs,
-  pair_step k fx s (PSend c a true m) = (s', outs) ->
+Theorem pair_nb_send_immediate : forall k fx fr s c a m s' outs,
+  pair_step k fx fr s (PSend c a true m) = (s', outs) ->
   exists rv rest, outs = Complete a rv None :: rest /\ pr_waq s' = pr_waq s /\ (forall x, ~ In (Free x) outs) /\
     (rv = E_AGAIN <-> (norm_send k m <> None /\ can_send s = false)) /\
     (rv = E_PROTO <-> norm_send k m = None) /\
@@ -125,16 +126,16 @@ Proof. exact pair_send_nonblocking. Qed.
 Print Assumptions pair_nb_send_immediate.
 
 (* ... and whenever it can be taken a send (blocking or not) succeeds at once *)
-Theorem pair_send_succeeds_if_possible : forall k fx s c a nb m s' outs,
+Theorem pair_send_succeeds_if_possible : forall k fx fr s c a nb m s' outs,
   PInv s -> norm_send k m <> None -> can_send s = true ->
-  pair_step k fx s (PSend c a nb m) = (s', outs) -> exists rest, outs = Complete a E_OK None :: rest /\ pr_waq s' = pr_waq s.
+  pair_step k fx fr s (PSend c a nb m) = (s', outs) -> exists rest, outs = Complete a E_OK None :: rest /\ pr_waq s' = pr_waq s.
 Proof. exact pair_send_accepts_when_possible. Qed.
 Print Assumptions pair_send_succeeds_if_possible.
 
 (* non-blocking receive: immediate; NNG_EAGAIN exactly when nothing is buffered or parked
    (then nothing changes); otherwise the OLDEST undelivered message *)
-Theorem pair_nb_recv_immediate : forall k fx s c a s' outs,
-  PInv s -> pair_step k fx s (PRecv c a true) = (s', outs) ->
+Theorem pair_nb_recv_immediate : forall k fx fr s c a s' outs,
+  PInv s -> pair_step k fx fr s (PRecv c a true) = (s', outs) ->
   exists rv mo rest, outs = Complete a rv mo :: rest /\ pr_raq s' = pr_raq s /\ (forall x, ~ In (Free x) outs) /\
     (rv = E_AGAIN <-> can_recv s = false) /\
     (rv = E_AGAIN -> s' = s /\ mo = None /\ rest = []) /\
@@ -142,9 +143,9 @@ Theorem pair_nb_recv_immediate : forall k fx s c a s' outs,
 Proof. exact pair_recv_nonblocking. Qed.
 Print Assumptions pair_nb_recv_immediate.
 
-Theorem pair_recv_blocks_when_empty : forall k fx s c a,
+Theorem pair_recv_blocks_when_empty : forall k fx fr s c a,
   can_recv s = false ->
-  pair_step k fx s (PRecv c a false) =
+  pair_step k fx fr s (PRecv c a false) =
     (mkPair (pr_p s) (pr_ttl s) (pr_wmq s) (pr_wcap s) (pr_waq s) [] (pr_rcap s) (pr_raq s ++ [a])
             None (pr_wr s) (pr_sending s) (pr_readable s) (pr_writable s), []).
 Proof. exact pair_recv_blocks. Qed.
@@ -153,8 +154,8 @@ Print Assumptions pair_recv_blocks_when_empty.
 (* ---------- poll descriptors ---------- *)
 (* receive descriptor raised <=> a non-blocking receive would not return NNG_EAGAIN: kept by
    every step but the socket close, hence on every reachable state of an open socket *)
-Theorem pair_poll_r_mirror : forall k fx s o s' outs,
-  PInv s -> op_ok s o -> o <> PSockClose -> RInv s -> pair_step k fx s o = (s', outs) -> RInv s'.
+Theorem pair_poll_r_mirror : forall k fx fr s o s' outs,
+  PInv s -> op_ok s o -> o <> PSockClose -> RInv s -> pair_step k fx fr s o = (s', outs) -> RInv s'.
 Proof. exact pair_readable_mirror. Qed.
 Print Assumptions pair_poll_r_mirror.
 
@@ -163,15 +164,15 @@ Print Assumptions pair_poll_r_mirror.
    only when the send buffer is full); for the unrepaired form (fx = false) kept by every
    step except pipe_stop, where it is refuted (below).  The full statement for the current
    source is pair_poll_w_mirror_holds. *)
-Theorem pair_poll_w_mirror_partial : forall k fx s o s' outs,
+Theorem pair_poll_w_mirror_partial : forall k fx fr s o s' outs,
   PInv s -> op_ok s o -> o <> PSockClose -> (fx = true \/ forall p, o <> PPipeClose p) ->
-  WInv s -> pair_step k fx s o = (s', outs) -> WInv s'.
+  WInv s -> pair_step k fx fr s o = (s', outs) -> WInv s'.
 Proof. exact pair_writable_mirror. Qed.
 Print Assumptions pair_poll_w_mirror_partial.
 
-Theorem pair_poll_mirror_histories : forall k fx ops s, PInv s -> ops_ok k fx s ops -> ~ In PSockClose ops ->
+Theorem pair_poll_mirror_histories : forall k fx fr ops s, PInv s -> ops_ok k fx fr s ops -> ~ In PSockClose ops ->
   RInv s -> (fx = true \/ forall p, ~ In (PPipeClose p) ops) -> WInv s ->
-  RInv (fst (pair_run k fx s ops)) /\ ((fx = true \/ forall p, ~ In (PPipeClose p) ops) -> WInv (fst (pair_run k fx s ops))).
+  RInv (fst (pair_run k fx fr s ops)) /\ ((fx = true \/ forall p, ~ In (PPipeClose p) ops) -> WInv (fst (pair_run k fx fr s ops))).
 Proof. exact pair_run_mirror. Qed.
 Print Assumptions pair_poll_mirror_histories.
 
@@ -184,7 +185,7 @@ Theorem pair_poll_w_mirror_holds : forall s o s' outs,
   pair0_step s o = (s', outs) \/ pair1_step s o = (s', outs) \/ pair1_raw_step s o = (s', outs) -> WInv s'.
 Proof.
   intros s o s' outs HI Hok Hn HW [H|[H|H]];
-    unfold pair0_step, pair1_step, pair1_raw_step in H; rewrite (pair_step_g_contract _ _ _ s o Hok) in H;
+    unfold pair0_step, pair1_step, pair1_raw_step in H; rewrite (pair_step_g_contract _ _ _ _ s o Hok) in H;
     (eapply pair_writable_mirror; [exact HI|exact Hok|exact Hn|left; reflexivity|exact HW|exact H]).
 Qed.
 Print Assumptions pair_poll_w_mirror_holds.
@@ -193,11 +194,11 @@ Print Assumptions pair_poll_w_mirror_holds.
    of 2, a peer comes and goes => descriptor not raised, yet a non-blocking send succeeds (a
    missed wake-up; before the peer came the same state had the descriptor raised).  It
    replayed on the implementation (findings/known_findings.txt, fixed: property=C15 6a91792). *)
-Theorem pair_poll_w_mirror_refuted : forall k,
-  let s := fst (pair_run k false pair_init (poll_w_witness k)) in
-  ops_ok k false pair_init (poll_w_witness k) /\
+Theorem pair_poll_w_mirror_refuted : forall k fr,
+  let s := fst (pair_run k false fr pair_init (poll_w_witness k)) in
+  ops_ok k false fr pair_init (poll_w_witness k) /\
   pr_writable s = false /\ can_send s = true /\
-  exists s' rest, pair_step k false s (PSend None 7%N true (mkPmsg [0; 0; 0; 0]%N [1%N])) = (s', Complete 7%N E_OK None :: rest).
+  exists s' rest, pair_step k false fr s (PSend None 7%N true (mkPmsg [0; 0; 0; 0]%N [1%N])) = (s', Complete 7%N E_OK None :: rest).
 Proof. exact pair_poll_w_mirror_refuted_pinned. Qed.
 Print Assumptions pair_poll_w_mirror_refuted.
 
@@ -210,11 +211,11 @@ Print Assumptions pair_poll_w_mirror_refuted.
    pair_fifo_lossless_while_up then deliver exactly that message in order; fewer than four
    bytes => disconnect; on the way out pipe_send adds one to the header word (mod 2^32;
    headers accepted from the application are < 0xff, so the result is <= 0xff) *)
-Theorem pair1_hop_rules : forall raw fx s p hdr b0 b1 b2 b3 rest,
+Theorem pair1_hop_rules : forall raw fx fr s p hdr b0 b1 b2 b3 rest,
   let m := mkPmsg hdr (b0 :: b1 :: b2 :: b3 :: rest) in
   let v := word32 b0 b1 b2 b3 in
-  ((255 < v)%N -> pair_step (K1 raw) fx s (PRecvDone p 0 m) = (s, [Free m; ClosePipe p])) /\
-  ((v <= 255)%N -> (N.of_nat (pr_ttl s) < v)%N -> pair_step (K1 raw) fx s (PRecvDone p 0 m) = (s, [Free m; TranRecv p])) /\
+  ((255 < v)%N -> pair_step (K1 raw) fx fr s (PRecvDone p 0 m) = (s, [Free m; ClosePipe p])) /\
+  ((v <= 255)%N -> (N.of_nat (pr_ttl s) < v)%N -> pair_step (K1 raw) fx fr s (PRecvDone p 0 m) = (s, [Free m; TranRecv p])) /\
   ((v <= 255)%N -> (v <= N.of_nat (pr_ttl s))%N ->
      rx_decode (K1 raw) (pr_ttl s) m = RxOk (mkPmsg (hdr ++ [0; 0; 0; v]%N) rest) /\
      arrived_ok (K1 raw) s (PRecvDone p 0 m) = [mkPmsg (hdr ++ [0; 0; 0; v]%N) rest] /\
@@ -228,8 +229,8 @@ Theorem pair1_hop_header_is_received_bytes : forall b0 b1 b2 b3,
 Proof. exact word32_small_bytes. Qed.
 Print Assumptions pair1_hop_header_is_received_bytes.
 
-Theorem pair1_short_message_disconnects : forall raw fx s p m,
-  length (pm_body m) < 4 -> pair_step (K1 raw) fx s (PRecvDone p 0 m) = (s, [Free m; ClosePipe p]).
+Theorem pair1_short_message_disconnects : forall raw fx fr s p m,
+  length (pm_body m) < 4 -> pair_step (K1 raw) fx fr s (PRecvDone p 0 m) = (s, [Free m; ClosePipe p]).
 Proof. exact pair1_short_message_law. Qed.
 Print Assumptions pair1_short_message_disconnects.
 
@@ -248,7 +249,7 @@ Theorem pair1_raw_header_handling :
   (forall m,
     (forall m', norm_send (K1 true) m = Some m' -> m' = m /\ exists b0 b1 b2 b3, pm_hdr m = [b0; b1; b2; b3] /\ (word32 b0 b1 b2 b3 < 255)%N) /\
     (forall b0 b1 b2 b3, pm_hdr m = [b0; b1; b2; b3] -> (word32 b0 b1 b2 b3 < 255)%N -> norm_send (K1 true) m = Some m) /\
-    (forall fx s c a nb, norm_send (K1 true) m = None -> pair_step (K1 true) fx s (PSend c a nb m) = (s, [Complete a E_PROTO None]))).
+    (forall fx fr s c a nb, norm_send (K1 true) m = None -> pair_step (K1 true) fx fr s (PSend c a nb m) = (s, [Complete a E_PROTO None]))).
 Proof. split; [exact pair1_cooked_send_header|exact pair1_raw_send_header]. Qed.
 Print Assumptions pair1_raw_header_handling.
 
@@ -256,12 +257,12 @@ Print Assumptions pair1_raw_header_handling.
 (* The instances Pair0Model / Pair1Model are PairGuard.pair_step_g, whose two switches are read
    from the current source.  Under the contract op_ok the guarded step IS pair_step, so every
    theorem above holds of the source as it is now: *)
-Theorem pair_guard_is_step_under_contract : forall k fx fs s o,
-  op_ok s o -> pair_step_g k fx fs s o = pair_step k fx s o.
+Theorem pair_guard_is_step_under_contract : forall k fx fr fs s o,
+  op_ok s o -> pair_step_g k fx fr fs s o = pair_step k fx fr s o.
 Proof. exact pair_step_g_contract. Qed.
 Print Assumptions pair_guard_is_step_under_contract.
-Theorem pair_guard_run_under_contract : forall k fx fs ops s,
-  ops_ok k fx s ops -> pair_run_g k fx fs s ops = pair_run k fx s ops.
+Theorem pair_guard_run_under_contract : forall k fx fr fs ops s,
+  ops_ok k fx fr s ops -> pair_run_g k fx fr fs s ops = pair_run k fx fr s ops.
 Proof. exact pair_run_g_contract. Qed.
 Print Assumptions pair_guard_run_under_contract.
 
@@ -272,8 +273,8 @@ Print Assumptions pair_guard_run_under_contract.
    (only the third is in flight).  Replayed on the real library with the callback delayed
    (findings/c08/stale_demo.c: assertion in nni_aio_start on the second start of the new
    pipe's aio_send) and repaired. *)
-Theorem pair_stale_send_completion_refuted : forall fx,
-  let (s, tr) := pair_run K0 fx pair_init stale_witness in
+Theorem pair_stale_send_completion_refuted : forall fx fr,
+  let (s, tr) := pair_run K0 fx fr pair_init stale_witness in
   tr_acc K0 tr = [mkPmsg [] [1%N]; mkPmsg [] [2%N]; mkPmsg [] [3%N]] /\
   tr_tx tr = [mkPmsg [] [1%N]; mkPmsg [] [2%N]; mkPmsg [] [3%N]] /\
   pr_p s = Some 2%N /\ sendingl s = [mkPmsg [] [3%N]] /\ tr_wloss tr = [].
@@ -283,18 +284,18 @@ Print Assumptions pair_stale_send_completion_refuted.
 (* the source as it is now: such a completion schedules nothing and changes nothing else,
    a message completing on a replaced pipe is never parked for the new peer, and on the
    witness message 2 stays in flight on pipe 2 with message 3 still queued *)
-Theorem pair_stale_send_ignored_holds : forall k fx s p, is_cur s p = false ->
-  pair_step_g k fx true s (PSendDone p 0%N) =
+Theorem pair_stale_send_ignored_holds : forall k fx fr s p, is_cur s p = false ->
+  pair_step_g k fx fr true s (PSendDone p 0%N) =
   (mkPair (pr_p s) (pr_ttl s) (pr_wmq s) (pr_wcap s) (pr_waq s) (pr_rmq s) (pr_rcap s) (pr_raq s)
           (pr_rd s) (pr_wr s) (set_snd (pr_sending s) p None) (pr_readable s) (pr_writable s), []).
 Proof. exact pair_stale_send_ignored. Qed.
 Print Assumptions pair_stale_send_ignored_holds.
-Theorem pair_stale_recv_never_parked_holds : forall k fx s p m s' outs, is_cur s p = false ->
-  pair_step_g k fx true s (PRecvDone p 0%N m) = (s', outs) -> pr_rd s' = pr_rd s.
+Theorem pair_stale_recv_never_parked_holds : forall k fx fr s p m s' outs, is_cur s p = false ->
+  pair_step_g k fx fr true s (PRecvDone p 0%N m) = (s', outs) -> pr_rd s' = pr_rd s.
 Proof. exact pair_stale_recv_never_parked. Qed.
 Print Assumptions pair_stale_recv_never_parked_holds.
-Theorem pair_stale_send_completion_holds : forall fx,
-  let (s, tr) := pair_run_g K0 fx true pair_init stale_witness in
+Theorem pair_stale_send_completion_holds : forall fx fr,
+  let (s, tr) := pair_run_g K0 fx fr true pair_init stale_witness in
   tr_tx tr = [mkPmsg [] [1%N]; mkPmsg [] [2%N]] /\
   pr_p s = Some 2%N /\ sendingl s = [mkPmsg [] [2%N]] /\ pr_wmq s = [mkPmsg [] [3%N]] /\ tr_wloss tr = [].
 Proof. exact PairGuardProofs.pair_stale_send_completion_holds. Qed.
@@ -305,6 +306,91 @@ Theorem pair_current_source_repaired :
   C08_PAIR0_STOP_WRITABLE_FIXED = true /\ C08_PAIR1_STOP_WRITABLE_FIXED = true.
 Proof. repeat split; reflexivity. Qed.
 Print Assumptions pair_current_source_repaired.
+
+(* ---------- send order = SUBMISSION order (since fix 7c956d7, fr = true) ---------- *)
+(* pend s = the send buffer followed by the messages of the blocked senders (oldest first);
+   submitted s o = the message of a PSend unless the call is refused on the spot (NNG_EPROTO /
+   NNG_EAGAIN); sub_loss = a buffer shrink, the message of a cancelled blocked send, what the
+   socket close drops.  One step: "a blocked sender => the buffer is full" is kept, and the
+   messages handed to the transport followed by those still pending are an in-order
+   sub-sequence of pending ++ submitted -- equal to it when nothing is dropped. *)
+Theorem pair_submission_order_step : forall k fx s o s' outs,
+  PInv s -> QInv s -> op_ok s o -> pair_step k fx true s o = (s', outs) ->
+  QInv s' /\
+  (sub_loss s o = [] -> map (wire_form k) (pend s ++ submitted k s o) = txs outs ++ map (wire_form k) (pend s')) /\
+  sublist (txs outs ++ map (wire_form k) (pend s')) (map (wire_form k) (pend s ++ submitted k s o)) /\
+  (forall x, cnt x (map (wire_form k) (pend s ++ submitted k s o)) = cnt x (txs outs ++ map (wire_form k) (pend s' ++ sub_loss s o))).
+Proof. intros k fx s o s' outs HI Q Hok H. exact (pair_submission_step k fx true s o s' outs eq_refl HI Q Hok H). Qed.
+Print Assumptions pair_submission_order_step.
+
+(* every history, resizes included: the sequence handed to the transport (then the buffer, then
+   the blocked senders) respects the order in which the sends were submitted; when nothing was
+   dropped by a shrink / cancel / close it IS that sequence, i.e. what the peer is sent is a
+   prefix of the submissions and no later-submitted message is ahead of an earlier one *)
+Theorem pair_submission_order : forall k fx ops s, PInv s -> QInv s -> ops_ok k fx true s ops ->
+  let (s', tr) := pair_run k fx true s ops in
+  QInv s' /\
+  sublist (tr_tx tr ++ map (wire_form k) (pend s')) (map (wire_form k) (pend s ++ tr_sub k tr)) /\
+  (tr_subloss tr = [] -> tr_tx tr ++ map (wire_form k) (pend s') = map (wire_form k) (pend s ++ tr_sub k tr)) /\
+  (forall x, cnt x (map (wire_form k) (pend s ++ tr_sub k tr)) = cnt x (tr_tx tr ++ map (wire_form k) (pend s' ++ tr_subloss tr))).
+Proof. intros k fx ops s HI Q Hok. exact (pair_submission_order_law k fx true ops s eq_refl HI Q Hok). Qed.
+Print Assumptions pair_submission_order.
+
+(* ... for the source as it is now: the instances' runs are those of pair_step with the
+   generated flags, and the resize flag is set in both files *)
+Theorem pair_submission_order_holds :
+  C08_PAIR0_RESIZE_ADMITS_FIXED = true /\ C08_PAIR1_RESIZE_ADMITS_FIXED = true /\
+  forall k fx ops, ops_ok k fx true pair_init ops ->
+    let (s', tr) := pair_run k fx true pair_init ops in
+    sublist (tr_tx tr ++ map (wire_form k) (pend s')) (map (wire_form k) (tr_sub k tr)) /\
+    (tr_subloss tr = [] -> tr_tx tr ++ map (wire_form k) (pend s') = map (wire_form k) (tr_sub k tr)).
+Proof.
+  split; [reflexivity|]. split; [reflexivity|]. intros k fx ops Hok.
+  pose proof (pair_submission_order_law k fx true ops pair_init eq_refl (proj1 pair_init_inv)) as L.
+  assert (Q: QInv pair_init) by (intros H; exfalso; apply H; reflexivity).
+  specialize (L Q Hok). destruct (pair_run k fx true pair_init ops) as [s' tr]. destruct L as (_ & A & B & _). split; assumption.
+Qed.
+Print Assumptions pair_submission_order_holds.
+
+(* "a blocked sender => the send buffer is full" on every reachable state (replaces the
+   Appendix-D exception, which the repair removed) *)
+Theorem pair_blocked_sender_implies_full : forall k fx ops, ops_ok k fx true pair_init ops ->
+  let s := fst (pair_run k fx true pair_init ops) in
+  pr_waq s <> [] -> lmq_full (pr_wmq s) (pr_wcap s) = true /\ pr_wr s = false.
+Proof.
+  intros k fx ops Hok.
+  pose proof (pair_submission_order_law k fx true ops pair_init eq_refl (proj1 pair_init_inv)) as L.
+  assert (Q: QInv pair_init) by (intros H; exfalso; apply H; reflexivity).
+  specialize (L Q Hok). pose proof (pair_run_law k fx true ops pair_init (proj1 pair_init_inv) Hok) as R.
+  destruct (pair_run k fx true pair_init ops) as [s tr]. cbn [fst]. destruct L as (Q' & _). destruct R as (HI & _).
+  intros Hne. split; [exact (Q' Hne)|]. destruct (pr_wr s) eqn:W; [|reflexivity].
+  destruct HI as (I1 & _). destruct (I1 W) as (_ & _ & C). contradiction.
+Qed.
+Print Assumptions pair_blocked_sender_implies_full.
+
+(* the resize as first pinned (fr = false): unbuffered socket, sends 1 2 3 submitted in turn
+   (2 and 3 block), the buffer grows to 2 leaving them on the wait list, send 4 finds the room
+   and overtakes them: the transport is handed 1 4 2 3 although nothing was dropped.  Replayed
+   on the implementation (findings/c08/resize_order_demo.c; fixed: 7c956d7); on the same
+   history the repaired resize hands over 1 2 3 4. *)
+Theorem pair_submission_order_refuted : forall fx,
+  ops_ok K0 fx false pair_init resize_witness /\
+  let (s, tr) := pair_run K0 fx false pair_init resize_witness in
+  tr_sub K0 tr = [mkPmsg [] [1%N]; mkPmsg [] [2%N]; mkPmsg [] [3%N]; mkPmsg [] [4%N]] /\
+  tr_tx tr = [mkPmsg [] [1%N]; mkPmsg [] [4%N]; mkPmsg [] [2%N]; mkPmsg [] [3%N]] /\
+  tr_subloss tr = [] /\ pend s = [].
+Proof. exact pair_submission_order_refuted_pinned. Qed.
+Print Assumptions pair_submission_order_refuted.
+Theorem pair_blocked_sender_not_full_refuted : forall fx,
+  let s := fst (pair_run K0 fx false pair_init (firstn 5 resize_witness)) in
+  pr_waq s <> [] /\ lmq_full (pr_wmq s) (pr_wcap s) = false.
+Proof. exact pair_blocked_sender_not_full_refuted_pinned. Qed.
+Print Assumptions pair_blocked_sender_not_full_refuted.
+Theorem pair_submission_order_on_resize_witness : forall fx,
+  let (s, tr) := pair_run K0 fx true pair_init resize_witness in
+  tr_tx tr = [mkPmsg [] [1%N]; mkPmsg [] [2%N]; mkPmsg [] [3%N]; mkPmsg [] [4%N]] /\ tr_sub K0 tr = tr_tx tr.
+Proof. exact pair_submission_order_on_witness. Qed.
+Print Assumptions pair_submission_order_on_resize_witness.
 
 (* ---------- the literals of the model are those of the current source ---------- *)
 Theorem pair_consts_match :
@@ -317,9 +403,9 @@ Theorem pair_consts_match :
   255%N = C08_PAIR1_RX_HOP_LIMIT /\ 255%N = C08_PAIR1_TX_HOP_LIMIT /\
   E_INVAL = C08_NNG_EINVAL /\ E_BUSY = C08_NNG_EBUSY /\ E_CLOSED = C08_NNG_ECLOSED /\ E_AGAIN = C08_NNG_EAGAIN /\
   E_NOTSUP = C08_NNG_ENOTSUP /\ E_PROTO = C08_NNG_EPROTO /\
-  pair0_step = pair_step_g K0 C08_PAIR0_STOP_WRITABLE_FIXED C08_PAIR0_STALE_FIXED /\
-  pair1_step = pair_step_g (K1 false) C08_PAIR1_STOP_WRITABLE_FIXED C08_PAIR1_STALE_FIXED /\
-  pair1_raw_step = pair_step_g (K1 true) C08_PAIR1_STOP_WRITABLE_FIXED C08_PAIR1_STALE_FIXED.
+  pair0_step = pair_step_g K0 C08_PAIR0_STOP_WRITABLE_FIXED C08_PAIR0_RESIZE_ADMITS_FIXED C08_PAIR0_STALE_FIXED /\
+  pair1_step = pair_step_g (K1 false) C08_PAIR1_STOP_WRITABLE_FIXED C08_PAIR1_RESIZE_ADMITS_FIXED C08_PAIR1_STALE_FIXED /\
+  pair1_raw_step = pair_step_g (K1 true) C08_PAIR1_STOP_WRITABLE_FIXED C08_PAIR1_RESIZE_ADMITS_FIXED C08_PAIR1_STALE_FIXED.
 Proof. repeat split; reflexivity. Qed.
 Print Assumptions pair_consts_match.
 
@@ -336,18 +422,9 @@ Definition c08_demo : list pop :=
    PRecvDone 5%N 0%N (mkPmsg [] [0; 0; 0; 4; 10]%N);         (* hop 4 > ttl: dropped, connection kept *)
    PSetOpt None (OSendBuf 4)].
 Example pair_history_nonvacuous :
-  ops_ok (K1 false) false pair_init c08_demo /\
-  let (s, tr) := pair_run (K1 false) false pair_init c08_demo in
+  ops_ok (K1 false) false true pair_init c08_demo /\
+  let (s, tr) := pair_run (K1 false) false true pair_init c08_demo in
   tr_tx tr = [mkPmsg [0; 0; 0; 1]%N [7%N]; mkPmsg [0; 0; 0; 1]%N [8%N]] /\
   tr_dlv tr = [mkPmsg [0; 0; 0; 3]%N [9%N]] /\ pr_p s = Some 5%N /\ tr_wloss tr = [] /\ tr_rloss tr = [].
 Proof. vm_compute. repeat split; auto; try tauto; try discriminate; intros [H|H]; try discriminate H; auto. Qed.
 
-(* Appendix D's exception: after a growing resize a sender stays blocked although the send
-   buffer has room (it is admitted when the peer's send next completes); "blocked sender =>
-   buffer full" is therefore not an invariant, "wr_ready => no blocked sender" is *)
-Example pair_blocked_sender_after_grow :
-  let s := fst (pair_run K0 false pair_init
-             [PPipeStart 1%N PROTO_PAIR0; PSend None 1%N true (mkPmsg [] [1%N]); PSend None 2%N false (mkPmsg [] [2%N]);
-              PSetOpt None (OSendBuf 2)]) in
-  pr_waq s = [(2%N, mkPmsg [] [2%N])] /\ pr_wmq s = [] /\ pr_wcap s = 2 /\ pr_wr s = false /\ pr_writable s = true.
-Proof. vm_compute. repeat split; reflexivity. Qed.
